@@ -37,9 +37,13 @@ MANIFEST_ENTRY = dict(
     note='NOT decided: inputs whose total unitary is not monomial (so rules whose source gate is H/CH are reached only through '
          'identity-padded inputs), and what "within the success threshold" means for a generic unitary. Tolerance of the `within` flag: '
          '1e-7 for exact passes, 1e-6 analytic, for threshold passes 10*sqrt(success_threshold) (the documented cost is a squared '
-         'distance; weaker reading, never below 1e-5). Known findings: GeneralSQDecomposition builds a qubit circuit for a qutrit '
-         'input; BlockZXZPass.demultiplex uses eig() whose eigenvectors are not orthonormal for degenerate spectra and raises on '
-         'structured unitaries. Trusted: TLC, harness/exact.py (own contraction + discretiser), harness/c10_catalogue.py.',
+         'distance; weaker reading, never below 1e-5). A pass that raises on an input of its documented domain is reported as '
+         'pass-failed-on-valid-input. Known findings: GeneralSQDecomposition builds a qubit circuit for a qutrit input; '
+         'BlockZXZPass.demultiplex uses eig() whose eigenvectors are not orthonormal for degenerate spectra and raises on structured '
+         'unitaries; ExtractDiagonalPass (and FullBlockZXZPass with its default perform_extract=True) always raises because its ansatz '
+         'contains CNOTs and it insists on the qfactor instantiater. Not in the catalogue: synthesis passes that search (QSearch, LEAP, '
+         'QFAST, QPredict, PAS), SubstitutePass, ExtendBlockSizePass. Trusted: TLC, harness/exact.py (own contraction + discretiser), '
+         'harness/c10_catalogue.py.',
     ref='DESIGN.md section 4 / C10',
 )
 
